@@ -938,6 +938,8 @@ _ADD = "        nx_graph.add_nodes_from(node.node_id for node in graph.nodes())\
 _FLAT_LOOP = '        for idx in tree_labels:\n            df_records_list.append(\n                {\n                    "mutation_id": data[idx].name,\n                    "clone_id": tree_labels[idx],\n                }\n            )\n\n            clone_muts.add(data[idx].name)\n'
 _OUT = "    _create_results_output_files(out_table_file, out_tree_file, table, tree)\n\n\ndef create_topology_dict_from_trace"
 SELFTEST = [
+    {"name": "N3-groups-without-ccf-dropped", "kind": "break", "rule": "N3", "file": _P, "old": "            group[\"clonal_prev\"] = -1\n\n        df_list.append(group)\n", "new": "            group[\"clonal_prev\"] = -1\n            continue\n\n        df_list.append(group)\n"},
+    {"name": "benign-N3-append-in-both-arms", "kind": "benign", "file": _P, "old": "            group[\"clonal_prev\"] = -1\n\n        df_list.append(group)\n", "new": "            group[\"clonal_prev\"] = -1\n            df_list.append(group)\n            continue\n\n        df_list.append(group)\n"},
     # ---- N1
     {"name": "N1-revert-F7", "kind": "break", "rule": "N1", "file": _U, "old": _ADD, "new": ""},
     {"name": "N1-nodes-added-after-lookup", "kind": "break", "rule": "N1", "file": _U, "old": _ADD + _LOOP, "new": _LOOP + _ADD},
